@@ -425,6 +425,8 @@ func (c *Ctx) cod3() {
 		a.done(1, "an illegal return code returns an error wrapping errProtoReset")
 	}
 
+	c.cod3Suback(hs)
+
 	// onPUBLISH: bounds of the slicing
 	if fn := hs["typePUBLISH"]; fn != nil {
 		a := c.acc("COD-3", fn, "delivery⇒lengths-checked,identifier≠0,QoS≠3")
@@ -443,11 +445,13 @@ func (c *Ctx) cod3() {
 				return false
 			}
 			l2 := has(func(x cmp) bool { return lenOf(x.X, "Client.peek") && isK(x.Y, 2) && x.Op == token.GEQ })
-			topic := has(func(x cmp) bool { return lenOf(x.Y, "Client.peek") && x.Op == token.LEQ })
+			// the topic end, 2 + the 16-bit topic length, may equal the packet length (empty payload) but not exceed it
+			topic := has(func(x cmp) bool { return lenOf(x.Y, "Client.peek") && x.Op == token.LEQ && fromUint16(x.X, 0) && !isPlus(x.X, 2, true) })
 			q := qosOnPath(p)
 			idLen, idNZ := true, true
 			if q == 1 || q == 2 {
-				idLen = has(func(x cmp) bool { return lenOf(x.X, "Client.peek") && x.Op == token.GEQ && !isK(x.Y, 2) })
+				// the two identifier bytes behind the topic fit exactly: len ≥ topic end + 2
+				idLen = has(func(x cmp) bool { return lenOf(x.X, "Client.peek") && x.Op == token.GEQ && isPlus(x.Y, 2, true) })
 				idNZ = has(func(x cmp) bool { return x.Op == token.NEQ && parsedID(x.X) && isK(x.Y, 0) })
 			}
 			switch {
@@ -463,6 +467,47 @@ func (c *Ctx) cod3() {
 		}
 		a.done(3, "every delivering path checked both lengths, the identifier and the level")
 	}
+}
+
+// fromUint16: v is computed (through conversions, + and constants) from a Uint16 read.
+func fromUint16(v ssa.Value, d int) bool {
+	if d > 8 {
+		return false
+	}
+	switch x := stripConv(v).(type) {
+	case *ssa.Call:
+		return parsedID(x)
+	case *ssa.BinOp:
+		return fromUint16(x.X, d+1) || fromUint16(x.Y, d+1)
+	case *ssa.Phi:
+		for _, e := range x.Edges {
+			if fromUint16(e, d+1) {
+				return true
+			}
+		}
+	}
+	return false
+}
+
+// isPlus: v is (x + k) where, with topicEnd, x is itself derived from the topic length.
+func isPlus(v ssa.Value, k int64, topicEnd bool) bool {
+	bo, ok := stripConv(v).(*ssa.BinOp)
+	if !ok || bo.Op != token.ADD || !isK(bo.Y, k) {
+		return false
+	}
+	if !topicEnd {
+		return true
+	}
+	// x must be the topic end: uint16 + 2 (possibly through a phi)
+	return fromUint16(bo.X, 0) && func() bool {
+		switch y := stripConv(bo.X).(type) {
+		case *ssa.BinOp:
+			return y.Op == token.ADD
+		case *ssa.Phi:
+			return true
+		}
+		return false
+	}()
 }
 
 // ---- COD-4: remaining length decode reads at most four bytes ----
@@ -607,3 +652,229 @@ func (c *Ctx) cod4() {
 }
 
 var _ = strings.Join
+
+// cod3Suback: what a SUBACK means for the waiting Subscribe.
+//   - the callback taken from the registry is used (send, close) only when
+//     it is not nil: nil means the request was abandoned, and a send on a nil
+//     channel stops the read routine for good;
+//   - a return code 0x80 is counted, the count decides whether a
+//     SubscribeError is sent, and the error names exactly the filters whose
+//     code is 0x80.
+func (c *Ctx) cod3Suback(hs map[string]*ssa.Function) {
+	endTx := c.P.Func("(*unorderedTxs).endTx")
+	for _, name := range []string{"typeSUBACK", "typeUNSUBACK"} {
+		fn := hs[name]
+		if fn == nil || endTx == nil {
+			continue
+		}
+		a := c.acc("COD-3", fn, "callback-from-the-registry-used-only-when-non-nil")
+		for _, p := range c.Paths("COD-3", fn) {
+			var cb ssa.Value
+			at := -1
+			for i := range p.Events {
+				e := &p.Events[i]
+				if isCallTo(e, endTx) {
+					cb, at = pathx.ResultAt(e.Result, 0), i
+					if cb == nil {
+						cb = e.Result
+					}
+				}
+				if cb == nil {
+					continue
+				}
+				if (e.Kind == pathx.KSend || e.Kind == pathx.KClose) && e.Chan == cb {
+					if rel, _, k := p.Known(cb, at, i); k && rel == pathx.RNotNil {
+						a.pass()
+					} else {
+						a.fail(p, i, "the callback returned by endTx is used without a nil test: for an abandoned request it is nil, the send blocks forever (or close panics) and the read routine is lost")
+					}
+				}
+			}
+		}
+		a.done(1, "every send and close on the callback lies behind callback != nil")
+	}
+	fn := hs["typeSUBACK"]
+	if fn == nil {
+		return
+	}
+	cnt := c.acc("COD-3", fn, "return-code-0x80⇒counted")
+	rep := c.acc("COD-3", fn, "failures-counted⇒SubscribeError-sent;none⇒plain-close")
+	each := c.acc("COD-3", fn, "SubscribeError-lists-exactly-the-filters-with-code-0x80")
+	// the failure counter: an int phi (0; +1)
+	var failN *ssa.Phi
+	for _, b := range fn.Blocks {
+		for _, ins := range b.Instrs {
+			phi, ok := ins.(*ssa.Phi)
+			if !ok || phi.Type().String() != "int" {
+				continue
+			}
+			zero, inc := false, false
+			var walk func(v ssa.Value, d int)
+			walk = func(v ssa.Value, d int) {
+				if d > 4 {
+					return
+				}
+				if isK(v, 0) {
+					if _, isC := v.(*ssa.Const); isC {
+						zero = true
+					}
+				}
+				switch x := v.(type) {
+				case *ssa.BinOp:
+					if x.Op == token.ADD && isK(x.Y, 1) && (x.X == ssa.Value(phi) || func() bool { q, ok := x.X.(*ssa.Phi); return ok && q != phi }()) {
+						inc = true
+					}
+				case *ssa.Phi:
+					if x != phi {
+						for _, e := range x.Edges {
+							walk(e, d+1)
+						}
+					}
+				}
+			}
+			for _, e := range phi.Edges {
+				walk(e, 0)
+			}
+			if zero && inc && failN == nil {
+				// not the loop index: a range index is compared with a length
+				isIndex := false
+				for _, r := range *phi.Referrers() {
+					if bo, ok := r.(*ssa.BinOp); ok && bo.Op == token.LSS {
+						isIndex = true
+					}
+				}
+				if !isIndex {
+					failN = phi
+				}
+			}
+		}
+	}
+	if failN == nil {
+		cnt.failAt(c.P.Pos(fn.Pos()), "no counter of refused filters found (an int that starts at 0 and is incremented for return code 0x80): a refused subscription is reported as granted")
+		cnt.done(1, "")
+		return
+	}
+	is80 := func(p *pathx.Path, upto int) (yes, no bool) {
+		for i := 0; i < upto && i < len(p.Events); i++ {
+			e := &p.Events[i]
+			if e.Kind != pathx.KAssume {
+				continue
+			}
+			for _, at := range e.Atoms {
+				if at.C == "int:128" {
+					if at.Rel == pathx.REq {
+						yes = true
+					}
+					if at.Rel == pathx.RNe {
+						no = true
+					}
+				}
+			}
+		}
+		return
+	}
+	for _, p := range c.Paths("COD-3", fn) {
+		choice := phiChoices(p, fn)
+		// counting: an iteration of the validation loop (back edge into failN's block)
+		if p.End == pathx.KLoopBack && p.Events[len(p.Events)-1].Target == failN.Block() && p.Start == failN.Block() {
+			latch := p.Blocks[len(p.Blocks)-1]
+			var next ssa.Value
+			for i, pb := range failN.Block().Preds {
+				if pb == latch {
+					next = failN.Edges[i]
+				}
+			}
+			for d := 0; d < 8; d++ {
+				ph, ok := next.(*ssa.Phi)
+				if !ok || ph == failN || choice[ph] == nil {
+					break
+				}
+				next = choice[ph]
+			}
+			yes, _ := is80(p, len(p.Events))
+			inc := false
+			if bo, ok := next.(*ssa.BinOp); ok && bo.Op == token.ADD && isK(bo.Y, 1) {
+				inc = true
+			}
+			switch {
+			case yes && inc, !yes && !inc:
+				cnt.pass()
+			case yes:
+				cnt.fail(p, len(p.Events)-1, "an iteration that saw return code 0x80 does not count it: the refusal goes unreported")
+			default:
+				cnt.fail(p, len(p.Events)-1, "an iteration that did not see return code 0x80 counts a failure")
+			}
+		}
+		// reporting
+		for i := range p.Events {
+			e := &p.Events[i]
+			if e.Kind == pathx.KSend && e.Val != nil && strings.HasSuffix(unwrapIface(e.Val).Type().String(), "SubscribeError") {
+				nz := false
+				for _, cm := range assumed(p, 0, i) {
+					if stripConv(cm.X) == ssa.Value(failN) && isK(cm.Y, 0) && cm.Op == token.NEQ {
+						nz = true
+					}
+				}
+				if nz || p.Start != fn.Blocks[0] && p.Start != failN.Block() {
+					rep.pass()
+				} else {
+					rep.fail(p, i, "a SubscribeError is sent on a path that has not established a non-zero failure count")
+				}
+			}
+			if e.Kind == pathx.KClose && p.End == pathx.KReturn {
+				// closing without a SubscribeError: the count is zero, or the error was sent
+				sent := false
+				for j := 0; j < i; j++ {
+					if s := &p.Events[j]; s.Kind == pathx.KSend && s.Chan == e.Chan {
+						sent = true
+					}
+				}
+				zero, decided := false, false
+				for _, cm := range assumed(p, 0, i) {
+					if stripConv(cm.X) == ssa.Value(failN) && isK(cm.Y, 0) {
+						decided = true
+						zero = cm.Op == token.EQL
+					}
+				}
+				if !decided {
+					continue // a segment that starts behind the decision
+				}
+				if sent || zero {
+					rep.pass()
+				} else {
+					rep.fail(p, i, "the Subscribe callback is closed without an error although refused filters were counted")
+				}
+			}
+			// collection loop: appends to the SubscribeError
+			if e.Kind == pathx.KCall && e.Call != nil {
+				if bl, ok := e.Call.Value.(*ssa.Builtin); ok && bl.Name() == "append" && strings.HasSuffix(e.Call.Args[0].Type().String(), "SubscribeError") {
+					yes, _ := is80(p, i)
+					if yes {
+						each.pass()
+					} else {
+						each.fail(p, i, "a topic filter is added to the SubscribeError on a path that has not established that its return code is 0x80")
+					}
+				}
+			}
+		}
+		// an iteration of the collection loop that saw 0x80 appends
+		if p.End == pathx.KLoopBack && p.Start != failN.Block() && p.Start != fn.Blocks[0] && p.Events[len(p.Events)-1].Target == p.Start {
+			yes, _ := is80(p, len(p.Events))
+			app := p.Index(0, func(e *pathx.Event) bool {
+				if e.Kind != pathx.KCall || e.Call == nil {
+					return false
+				}
+				bl, ok := e.Call.Value.(*ssa.Builtin)
+				return ok && bl.Name() == "append" && strings.HasSuffix(e.Call.Args[0].Type().String(), "SubscribeError")
+			}) >= 0
+			if yes && !app {
+				each.fail(p, len(p.Events)-1, "an iteration that saw return code 0x80 does not add the filter to the SubscribeError")
+			} else if yes {
+				each.pass()
+			}
+		}
+	}
+	cnt.done(2, "the counter is incremented exactly in iterations that saw 0x80")
+	rep.done(2, "a SubscribeError goes out exactly when the count is non-zero")
+	each.done(2, "filters are collected exactly for code 0x80")
+}
